@@ -185,15 +185,15 @@ class Dedup:
 # ============================================================================================== C20
 
 C20_N = {"quick": 240, "thorough": 2400}
-C20_FAULTS = ["refuse", "drop", "truncate", "http500", "empty", "nonjson", "nodurations", "nulls", "fewer"]
-C20_EMPTY_CLASS = {"refuse", "drop", "truncate", "http500", "nodurations"}       # the lookup yields "no stop"
+C20_FAULTS = ["refuse", "drop", "truncate", "http500", "http503late", "empty", "nonjson", "nodurations", "nulls", "fewer"]
+C20_EMPTY_CLASS = {"refuse", "drop", "truncate", "http500", "http503late", "nodurations"}       # the lookup yields "no stop"
 C20_EXCEPTION_CLASS = {"empty", "nonjson", "nulls"}                              # the lookup throws -> HTTP 400 PARAM_ERROR_UNKNOWN
 C20_WHERE = ["both", "origin", "destination"]
 C20_STREAMS = [("dense", 3), ("sparse", 2), ("parallel", 2), ("xfer", 1), ("overlap", 1), ("tmpl", 1)]
 C20_RULE = ("N scripted fault sequences against the real ASan server wired to the walking-router stub: per sequence a generated dataset, 6 requests "
             "(2 route, route+alternatives, summary, 2 accessibility), a BASELINE server that never sees a fault, then a second server driven through "
             "8-14 steps, each step = 1 request (1 server thread) or 1-3 concurrent requests (4 server threads) under a stub state: healthy, or one of "
-            "refuse / drop / truncate / http500 / empty / nonjson / nodurations / nulls / fewer at origin / destination / both (persistent for the step; "
+            "refuse / drop / truncate / http500 / http503late (error status, body streamed late without Content-Length on a kept-alive connection) / empty / nonjson / nodurations / nulls / fewer at origin / destination / both (persistent for the step; "
             "`drop` also limited to 1 = masked by the client's retry, and 2 = exactly one failed lookup); faulted request: one well-formed documented "
             "response, process alive; healthy request: answer = baseline answer; non-trivial = healthy success answer right after a faulted step; "
             "distinct = distinct (dataset, step, answer)")
